@@ -23,6 +23,42 @@ CHECKS = {
     ),
 }
 
+_SEM = "spec/Semantics.tla + spec/MC_Semantics.tla"
+_SEM_NOTE = ("Trusted: TLC; the concretiser/projection verifkit/bind/sem.py relating abstract hints and objects to real "
+             "ones; the bounded grammar (container length <= L, depth <= 2) with stretching to 10..20000 items; the "
+             "draw abstraction r mod lcm(1..L) (checked as a model lemma and by lifted representatives).")
+CHECKS.update({
+    "C01": (_SEM, "TLA+ denotational semantics (Sat) vs transcribed generated check (Chk) model-checked by TLC over "
+            "all hints x objects x draw residues x configurations; TLC-emitted case table replayed into every real "
+            "entry point (conformance)",
+            "TLC proves Sat(Pub(h)) => Chk(h,x,r,conf) for every hint of the bounded grammar, every object of the "
+            "universe, every draw residue and configuration variant (and kills mutants of the generated check); every "
+            "enumerated case is then replayed on the real is_bearable / die_if_unbearable / TypeHint / decorated "
+            "parameter and return checks under all residues, several hint spellings and stretched containers, so a "
+            "generated-code change that rejects a conforming object for some nesting shape or draw is seen.",
+            _SEM_NOTE, "DESIGN.md §3, §4 C01"),
+    "C02": (_SEM, "TLC-computed MustReject / Weak / index-reachability vectors (declarative operators of Semantics.tla) "
+            "replayed against real verdict vectors over all draw residues; stretched sequences with one bad index",
+            "TLC proves on the model that MustReject => rejected under every draw, every sequence index is reachable, "
+            "is_random=False inspects item 0, accepted => Weak, ignorable children accept everything; the same vectors "
+            "are demanded of the real entry points for every enumerated case and for sequences of 10..20000 items over "
+            "all residues, with the sampler under harness control (one draw per check).",
+            _SEM_NOTE + " 'Item i violates' is read as MustReject(item hint, item i).", "DESIGN.md §4 C02"),
+    "C03": (_SEM, "cases from the TLC case table; relational conformance of the six real entry points per draw; "
+            "signal class checked against the violation-option lattice",
+            "For every enumerated (hint, conf, object, draw) case the six entry points must agree; rejections must be "
+            "exactly the configured class (defaults, custom exception, Warning => one warning and the call proceeds, "
+            "per-kind overrides, verbosity/colour variants), name the hint and carry the rejected object as first "
+            "culprit; any other exception (desynchronisation, builtin) is a violation.",
+            _SEM_NOTE, "DESIGN.md §4 C03"),
+    "C18": (_SEM, "TLC computes Rewrite(h, conf) and its denotation; metamorphic conformance: real verdict under the "
+            "option vs real verdict of the hand-rewritten hint, per object and draw",
+            "For every hint containing float/complex/A at any position of the bounded grammar, the verdict vector under "
+            "is_pep484_tower / hint_overrides equals that of the TLC-rewritten hint under the default configuration and "
+            "respects the rewritten meaning (Sat / MustReject); violation-type options never change a verdict.",
+            _SEM_NOTE, "DESIGN.md §4 C18"),
+})
+
 NOT_YET = "check not built yet in this round; the specification module is planned in DESIGN.md §4"
 
 
